@@ -230,3 +230,54 @@ CHECKS["C16"] = dict(
     technique="property-based testing (rapid) + native go fuzzing; round trip through Write/Read under generated segmentations and faults",
     design_ref="DESIGN.md section 4, C16",
 )
+
+CHECKS["C18"] = dict(
+    pkg="c18", level="exploration",
+    props=[dict(name="TestPropServer", quick=160000, thorough=16 * 1500000, shards_quick=8, shards_thorough=16, timeout_thorough=7200)],
+    fuzz=[dict(name="FuzzServer", seconds=300)],
+    rule="register maps (dense from 0, dense at the top of the address space, sparse runs, dense with one gap, bottom+top; "
+         "all-ones / address-derived / salted contents; validators never/even/<1000/always on drawn registers) x 1-12 requests "
+         "each: structured (function 1-6, 15, 16 with address and quantity at 0, 1, limit-1, limit, limit+1, 2040, 2041, 0x7fff, "
+         "0x8000, 0xffff, top-of-range and random; consistent or inconsistent byte-count field and payload length; truncated "
+         "or with surplus bytes) or raw (any function code, any bytes). Oracle: a reference server written from the Modbus "
+         "application protocol V1.1b3 over map[uint16]uint16 with coil n = bit n%16 of register n/16 gives the set of "
+         "acceptable outcomes (normal response byte for byte, or the exception codes whose conditions hold, or no response "
+         "only when the data is shorter than the fixed header); no panic; the register file afterwards equals the model "
+         "(after a refused read or single write: unchanged; after a refused multi-write only addressed registers may "
+         "differ). Non-trivial = quantity at a protocol limit, or a multi-element request that runs into an absent address.",
+    assumptions=["where two exception conditions hold at once either code is accepted",
+                 "an inconsistent byte-count field in FC15/16 may be answered with 03 or processed",
+                 "FC15 onto a register with a validator: either outcome (the validator sees intermediate values)",
+                 "requests with surplus bytes may be refused with 03 or processed on their defined prefix"],
+    level_text="Generated register maps and requests (rapid) plus a coverage-guided native fuzz target, differential against a "
+               "reference implementation of the specification's request state diagrams.",
+    level_note="Trusted: the reference server in harness/c18 (written from the specification, independent of modbus/pdu.go).",
+    technique="property-based testing (rapid) + native go fuzzing; differential against a reference model of the Modbus specification",
+    design_ref="DESIGN.md section 4, C18",
+)
+
+CHECKS["C19"] = dict(
+    pkg="c19", level="exploration",
+    props=[dict(name="TestPropEndToEnd", quick=40000, thorough=16 * 300000, shards_quick=8, shards_thorough=16, timeout_thorough=7200),
+           dict(name="TestPropDamagedFrames", quick=20000, thorough=16 * 200000, shards_quick=4, shards_thorough=16, timeout_thorough=7200),
+           dict(name="TestPropConversions", quick=100000, thorough=16 * 1000000, shards_quick=2, shards_thorough=16, timeout_thorough=7200),
+           dict(name="TestEnumTCPTransactionIDs", rapid=False, quick=1, thorough=1)],
+    rule="a modbus.Server and a modbus.Client joined by an in-memory packet duplex (implements net.Conn), over NewRTU and "
+         "NewTCP framing, unit ids 0/1/2/17/127/128/247/255, 400 registers (0..259 and the top 140 of the address space) with "
+         "drawn contents; 1-8 transactions per case over all six client methods, counts 1..2000 bits / 1..125 registers "
+         "biased to 7/8/9/12/15/16/17, 96-99, 124/125, 1592/1593, 1999/2000, aligned and unaligned addresses; written values "
+         "read back through the client and directly from the register file. Oracle: values and their NUMBER equal the model. "
+         "Damage on one reply: RTU bit flip / truncation / dropped CRC byte, TCP wrong transaction id / truncation below the "
+         "header / truncated payload -> the client must return an error and no values, and the next transaction must work. "
+         "Conversions: uint32/int32/float32 (bit patterns incl. NaN payloads) through XToRegs/RegsToX in both word orders are "
+         "exact inverses, swapped = word-swapped normal, high word first. Plus 70000 consecutive TCP transactions on one "
+         "connection (transaction id wraps). Non-trivial: bit count > 8 and not a multiple of 8, or > 97 registers (reply "
+         "longer than 200 bytes); every damage case except 'reply from another unit'.",
+    assumptions=["each Write is delivered as one packet (the transports require whole packets per Read)",
+                 "TCP framing carries no checksum: only transaction id and length are judged there"],
+    level_text="Generated transactions and single-fault injection on replies (rapid) over both framings against a map model of the "
+               "register file; conversions checked as round-trip and metamorphic (word swap) relations.",
+    level_note="Trusted: the in-memory duplex transport in harness/c19; server and client are the real ones.",
+    technique="property-based testing (rapid): model-based end-to-end comparison, fault injection on frames, round-trip relations",
+    design_ref="DESIGN.md section 4, C19",
+)
